@@ -43,6 +43,11 @@ def run(repo, rep):
     rule_enums(repo, rep)
     rule_raises(repo, rep, cg, reach)
     rule_assert_discharge(repo, rep)
+    rep.clause("C13-f", "the writer can look up every operator code it registered (no KeyError while writing a model with several third-party custom operators) [rule shared with C11-d2]")
+    from . import c11
+
+    with rep.borrow({"C11-d2": "C13-f"}):
+        c11.run(repo, rep)
 
 
 # ------------------------------------------------------------------ a
